@@ -2803,6 +2803,42 @@ fn oracle_c16(ops: &[String], outs: &[String]) -> Option<OracleFail> {
     None
 }
 
+/// The recorded finding K2 (known_findings.json, class `oversized-message`), and nothing else: the packet `p` that `who`
+/// emitted at op `i` and that the library's decoder rejects is, read with the independent wire reader, a slice of a message
+/// `who` really submitted (`sendfill who ch len …` earlier in the trace) with len > 1 000 000 × 1200 bytes, announcing exactly
+/// ⌈len / 1200⌉ > 1 000 000 slices. Any other undecodable packet keeps the class `emitted-undecodable`. When the trace goes
+/// on to hand the packet to the peer, the verdict is placed at the peer's `stat` (the honest peer's disconnect).
+fn oversized_message(ops: &[String], outs: &[String], i: usize, who: &str, p: &str) -> Option<OracleFail> {
+    let (ch, n) = match decode(p) {
+        Some(WPacket::ReliableSlice { channel_id, slice, .. }) | Some(WPacket::UnreliableSlice { channel_id, slice, .. }) => (channel_id, slice.num_slices as u64),
+        _ => return None,
+    };
+    if n <= 1_000_000 {
+        return None;
+    }
+    let len = ops[..i].iter().find_map(|o| {
+        let t: Vec<&str> = o.split(' ').collect();
+        if t.len() == 5 && t[0] == "sendfill" && t[1] == who && t[2].parse::<u8>().ok() == Some(ch) {
+            t[3].parse::<u64>().ok().filter(|l| *l > 1_200_000_000 && (*l + 1199) / 1200 == n)
+        } else {
+            None
+        }
+    })?;
+    let peer = peer_of(who)?;
+    let mut at = i;
+    let mut seen = String::new();
+    let handed = ops[i..].iter().position(|o| o.starts_with(&format!("dlv {} {} ", peer, who))).map(|k| i + k);
+    if let Some(h) = handed {
+        if let Some(k) = ops[h..].iter().position(|o| *o == format!("stat {}", peer)) {
+            if outs[h + k].starts_with("disconnected:") {
+                at = h + k;
+                seen = format!("; handed the packet, {} is {}", peer, outs[h + k]);
+            }
+        }
+    }
+    fail(at, "oversized-message", format!("{} accepted a message of {} bytes on channel {} and emits slice packets announcing {} slices, which its own decoder rejects (limit 1 000 000){}", who, len, ch, n, seen))
+}
+
 /// C16 on real traffic (profiles whose ids / sequences cross the varint widths or hold > 64 ack ranges): every packet an
 /// endpoint emits decodes, the decoded value re-encodes, and the re-encoding decodes to the same value; the Ack packet
 /// of a flush denotes exactly the pending list the adjacent `dump` of the same endpoint shows ("the set of sequence
@@ -2818,7 +2854,12 @@ fn oracle_c16_emitted(ops: &[String], outs: &[String]) -> Option<OracleFail> {
         for p in pk.iter() {
             let t = match lib_decode(p) {
                 Some(t) => t,
-                None => return fail(i, "emitted-undecodable", format!("{} emitted a packet its own decoder rejects: {}", who, &p[..p.len().min(60)])),
+                None => {
+                    if let Some(f) = oversized_message(ops, outs, i, who, p) {
+                        return Some(f);
+                    }
+                    return fail(i, "emitted-undecodable", format!("{} emitted a packet its own decoder rejects: {}", who, &p[..p.len().min(60)]));
+                }
             };
             let shown = show_term(&t);
             if let Some(w) = decode(p) {
@@ -3446,8 +3487,40 @@ fn slicecount_ops(mut case: usize) -> Vec<String> {
     ops
 }
 
+/// The recorded finding K2 (C16): `send_message` admits a message longer than 1 000 000 slices when the channel budget allows
+/// it; every slice packet built for it serialises and is rejected by the library's own decoder. Implementation only
+/// (`IMPL_ONLY_PROFILES` in common.rs: a 1.2 GB message does not travel through the line protocol; the statement is proved for
+/// every such message on the Lean side). One case, quick tier included; the message is allocated once (`sendfill`) and freed
+/// with the world.
+fn known_ops(_case: usize) -> Vec<String> {
+    let c = vec![Chan { id: 0, kind: "RO", max_mem: 3 << 30, resend_us: 300_000 }];
+    vec![
+        cfg_line(60_000, &c, &c),
+        "cli 0".into(),
+        "add 100".into(),
+        "setc 0".into(),
+        "sendfill c0 0 1200000001 7".into(),
+        "upd c0 16000".into(),
+        "flush c0".into(),
+        "dlv s100 c0 0".into(),
+        "stat s100".into(),
+        "stat c0".into(),
+    ]
+}
+
 pub fn profiles() -> Vec<Profile> {
     vec![Profile {
+        name: "rn-known",
+        props: &["C16"],
+        cases: |_| 1,
+        new_world,
+        script: script_none,
+        nontrivial: |_| true,
+        // never shrunk: every re-execution allocates the 1.2 GB message again
+        keep: |ops| ops.len(),
+        fixed: Some(known_ops),
+    },
+    Profile {
         name: "rn-regress",
         props: &["C06", "C09", "C12", "C13", "C02"],
         cases: |_| REGRESS_N,
@@ -5868,7 +5941,7 @@ pub fn oracles() -> Vec<Oracle> {
         Oracle { prop: "C01", name: "bulk", engines: &["rn-huge"], check: oracle_bulk },
         Oracle { prop: "C16", name: "roundtrip", engines: &["rn-wire"], check: oracle_c16 },
         Oracle { prop: "C08", name: "ack-encoding-roundtrip", engines: &["rn-wire"], check: oracle_c16_acks },
-        Oracle { prop: "C16", name: "emitted-roundtrip", engines: &["rn-volume-seq", "rn-volume-burst", "rn-acks", "rn-long"], check: oracle_c16_emitted },
+        Oracle { prop: "C16", name: "emitted-roundtrip", engines: &["rn-known", "rn-volume-seq", "rn-volume-burst", "rn-acks", "rn-long"], check: oracle_c16_emitted },
         Oracle { prop: "C16", name: "acks-are-the-set", engines: &["rn-sweep-acks"], check: oracle_sweep_acks },
         Oracle { prop: "C16", name: "ack-is-the-recorded-set", engines: &["rn-long", "rn-acks", "rn-volume-seq"], check: oracle_ack_is_recorded_set },
         Oracle { prop: "C08", name: "ack-is-the-recorded-set", engines: &["rn-pair", "rn-long", "rn-acks", "rn-timing", "rn-multi-ackgap", "rn-volume-mixed", "rn-volume-acks", "rn-timing-overflow"], check: oracle_ack_is_recorded_set },
